@@ -775,7 +775,6 @@ fn read_for(cur: &mut SourceCursor, song: &mut Song) -> Token {
     let init_s = cur.get_token_ch(';').trim().to_string();
     let cond_s = cur.get_token_ch(';');
     let inc_s = cur.get_token_ch(')');
-    println!("---");
     cur.skip_space();
     if !cur.eq_char('{') {
         read_error_cmd(cur, song, "FOR");
